@@ -1,4 +1,4 @@
-import ClaripyProofs.Lemmas.Solver.Extrema
+import ClaripyProofs.Lemmas.Solver.CachelessHistory
 /-!
 # C11 — solver answers after any history (Solver, SolverCacheless, SolverStrings)
 
@@ -37,9 +37,12 @@ theorem C11_mro_strings : mro .SolverStrings =
 for every configuration and EVERY history of well-formed calls on a tree of branched solvers, each outcome is one
 the stateless reference `Judge` allows for the constraints the user had added to that solver at that moment. -/
 def C11_full (cls : SolverClass) : Prop :=
-  ∀ (E : Env), OracleExact E → NoGiveUp E → BuildExact E → SimplifyEquiv E → CheapSound E → PickValid E →
+  ∀ (E : Env), OracleExact E → BuildExact E → SimplifyEquiv E → CheapSound E → PickValid E →
   ∀ (track reuse : Bool) (hist : List (Nat × Op)), (∀ io ∈ hist, io.2.Wf) →
-    ∀ x ∈ runHist E cls (World.init track reuse) [[]] hist, Judge x.1 x.2.1 x.2.2
+    ∀ x ∈ runHist E cls (World.init track reuse) [[]] hist, x.2.2 ≠ .err .giveUp → Judge x.1 x.2.1 x.2.2
+-- `BuildExact` / `SimplifyEquiv` are meant over the constraints and expressions of the run; the instance proved
+-- below (`C11_cacheless_refines`) uses the relativised forms `Reg` and `SimpOn`, and `C11_hypotheses_consistent`
+-- shows those are jointly satisfiable with an oracle that decides every query having a finitely described model.
 
 /-- `_satisfiable` over an exact oracle is exact and leaves the solver object's frames alone -/
 theorem C11_satisfiable_exact {E : Env} (hE : OracleExact E) {hook : PModel → M Unit} {A : List ZCon}
@@ -74,6 +77,86 @@ theorem C11_extrema_correct {E : Env} (hE : OracleExact E) {hook : PModel → M 
                      (objAt s' r).frames = (objAt s r).frames
     | (.error err, s') => IsGiveUp E err ∧ L1Step r P s s' ∧ (objAt s' r).frames = (objAt s r).frames :=
   z3Extrema_spec hE hh r isMax e extra signed he s hA hsat
+
+/-! ### SolverCacheless, whole histories -/
+
+/-- **SolverCacheless refines the specification.** Start from a fresh `SolverCacheless()` (no tracking, Z3 solver not
+reused) and make ANY sequence of add / satisfiable / eval / min / max / solution / is_true / is_false / simplify /
+downsize calls. If the oracle answers exactly when it answers (`OracleExact`), the simplifier returns equivalent
+constraints, the cheap `is_true`/`is_false` are sound and equal ids mean equal constraints (`Reg`), then every answer
+of the model — the complete mixin stack, composed from the generated MRO — other than the give-up error is one the
+property statement allows for the constraints added so far. -/
+theorem C11_cacheless_refines {E : Env} {R : Con → Prop} (hR : Reg R E) (hE : OracleExact E)
+    (hS : SimpOn R E) (hT : CheapSound E) (hist : List Op) (hops : ∀ op ∈ hist, InScope R op) :
+    ∀ x ∈ runHist E .SolverCacheless (World.init false false) [[]] (hist.map fun op => (0, op)),
+      x.2.2 ≠ .err .giveUp → Judge x.1 x.2.1 x.2.2 :=
+  cl_hist hR hE hS hT hist _ _ (winv_init R) hops
+
+/-- the same with the give-up case spelled out: an answer is allowed, or it is the give-up error and the oracle did
+answer `unknown`; answers after a give-up are covered like all others (C17) -/
+theorem C11_cacheless_refines_or_gives_up {E : Env} {R : Con → Prop} (hR : Reg R E) (hE : OracleExact E)
+    (hS : SimpOn R E) (hT : CheapSound E) (hist : List Op) (hops : ∀ op ∈ hist, InScope R op) :
+    ∀ x ∈ runHist E .SolverCacheless (World.init false false) [[]] (hist.map fun op => (0, op)),
+      JudgeOrGiveUp E x.1 x.2.1 x.2.2 :=
+  cl_hist_giveup hR hE hS hT hist _ _ (winv_init R) hops
+
+/-- one call keeps the frontend invariant and answers as allowed (or gives up honestly) -/
+theorem C11_cacheless_step {E : Env} {R : Con → Prop} (hR : Reg R E) (hE : OracleExact E) (hS : SimpOn R E)
+    (hT : CheapSound E) (w : World) (U : List Con) (hw : WInv R U w) (op : Op) (hop : InScope R op) :
+    JudgeOrGiveUp E (usersAfter U op) op (step E .SolverCacheless w 0 op).1 ∧
+    WInv R (usersAfter U op) (step E .SolverCacheless w 0 op).2 :=
+  cl_step hR hE hS hT w U hw op hop
+
+/-- frontend `is_true` / `is_false` (solver half of C10): a `True` answer is never wrong, whatever the backend's cheap
+test does as long as it is sound -/
+theorem C11_is_true_false_sound {G : List Con → List Nat → List Nat → Prop} {E : Env} (hT : CheapSound E) {self : Ops}
+    (hs : SelfOk self) (U : List Con) (s : St) (h : CLInv G U s) (isTrue : Bool) (c : Con) (hc : ConWf c)
+    (extra : List Con) (wf : ∀ c ∈ extra, ConWf c) :
+    match clTruth E self isTrue c extra s with
+    | (.ok b, s') => (b = true → ∀ a, Models (U ++ extra) a → c.sem a = isTrue) ∧ CLInv G U s'
+    | (.error err, s') => ErrOk E (U ++ extra) err ∧ CLInv G U s' :=
+  clTruth_spec hT hs U s h isTrue c hc extra wf
+
+/-! ### the hypotheses are jointly satisfiable -/
+
+/-- an oracle that answers `sat` whenever some finitely described partial model forces the query, `unsat` whenever
+nothing satisfies it, and gives up only on the rest (queries no finite model description settles) -/
+noncomputable def idealOracle (q : Query) (_k : Nat) : Answer :=
+  open Classical in
+  if h : ∃ p : List Nat × List Var, ∀ a : Asg, (∀ v ∈ p.2, a v = asgOf p.1 v) → q.holds a = true then
+    .sat (Classical.choose h).1 (Classical.choose h).2
+  else if ∀ a : Asg, q.holds a = false then .unsat [] else .unknown
+
+def regFalse : Con := { id := 0, vars := [], sem := fun _ => false, isFalse := true, conc := some false }
+def regCon : Con := { id := 1, vars := [0], sem := fun a => decide (a 0 % 8 ≤ 5) }
+
+noncomputable def idealEnv : Env :=
+  { dflt := fun _ => 0, oracle := idealOracle, build := fun _ => default, falseCon := regFalse,
+    cheapFalse := fun _ _ _ => false, truth := fun _ _ _ => false, simp := fun cs _ => cs, pick := fun all _ _ => all }
+
+theorem C11_hypotheses_consistent :
+    ∃ (E : Env) (R : Con → Prop), Reg R E ∧ OracleExact E ∧ SimpOn R E ∧ CheapSound E ∧ R regCon := by
+  refine ⟨idealEnv, fun c => c = regFalse ∨ c = regCon, ⟨?_, ?_, ?_, Or.inl rfl, fun _ => rfl⟩, ?_, fun _ _ _ _ => rfl,
+    ⟨fun _ _ _ h => by simp [idealEnv] at h, fun _ _ h => by simp [idealEnv] at h, fun _ _ h => by simp [idealEnv] at h⟩,
+    Or.inr rfl⟩
+  · rintro c c' (rfl | rfl) (rfl | rfl) hid a <;> first | rfl | (simp [regFalse, regCon] at hid)
+  · rintro c (rfl | rfl)
+    · exact ⟨fun _ _ _ => rfl, fun _ _ => rfl, fun b hb a => by simp [regFalse] at hb ⊢; exact hb, fun _ _ _ h => by simp [regFalse] at h⟩
+    · exact ⟨fun a a' h => by simp [regCon, h 0 (by simp [regCon])], fun h => by simp [regCon] at h,
+             fun b hb => by simp [regCon] at hb, fun _ _ _ h => by simp [regCon] at h⟩
+  · intro cs k h c hc; exact h c hc
+  · intro q k
+    show match idealOracle q k with
+      | .sat vals keys => ∀ a : Asg, (∀ v ∈ keys, a v = asgOf vals v) → q.holds a = true
+      | .unsat _ => ∀ a : Asg, q.holds a = false
+      | .unknown => True
+    unfold idealOracle
+    by_cases h : ∃ p : List Nat × List Var, ∀ a : Asg, (∀ v ∈ p.2, a v = asgOf p.1 v) → q.holds a = true
+    · rw [dif_pos h]; exact Classical.choose_spec h
+    · rw [dif_neg h]
+      by_cases h2 : ∀ a : Asg, q.holds a = false
+      · rw [if_pos h2]; exact h2
+      · rw [if_neg h2]; trivial
 
 /-! ### non-vacuity: a concrete exact run of the binary search (unsigned max of a 3-bit value constrained to ≤ 5) -/
 
